@@ -30,6 +30,7 @@ import (
 	"net"
 	"net/http"
 	"net/url"
+	"os"
 	"sort"
 	"strings"
 	"sync"
@@ -386,6 +387,45 @@ func c18TwinAddr(addr string) (string, bool) {
 	}
 	ln.Close()
 	return "127.0.0.2:" + port, true
+}
+
+// c18HoldsListener reports whether this process has a socket in state LISTEN on addr (Linux: /proc).
+func c18HoldsListener(addr string) bool {
+	host, port, err := net.SplitHostPort(addr)
+	if err != nil {
+		return false
+	}
+	ip := net.ParseIP(host).To4()
+	var pn int
+	fmt.Sscan(port, &pn)
+	if ip == nil || pn == 0 {
+		return false
+	}
+	want := fmt.Sprintf("%02X%02X%02X%02X:%04X", ip[3], ip[2], ip[1], ip[0], pn)
+	data, err := os.ReadFile("/proc/self/net/tcp")
+	if err != nil {
+		return true // cannot tell: trust the connection attempt
+	}
+	inodes := map[string]bool{}
+	for _, line := range strings.Split(string(data), "\n") {
+		f := strings.Fields(line)
+		if len(f) > 9 && f[1] == want && f[3] == "0A" {
+			inodes[f[9]] = true
+		}
+	}
+	if len(inodes) == 0 {
+		return false
+	}
+	fds, err := os.ReadDir("/proc/self/fd")
+	if err != nil {
+		return true
+	}
+	for _, fd := range fds {
+		if l, err := os.Readlink("/proc/self/fd/" + fd.Name()); err == nil && strings.HasPrefix(l, "socket:[") && inodes[strings.TrimSuffix(strings.TrimPrefix(l, "socket:["), "]")] {
+			return true
+		}
+	}
+	return false
 }
 
 func c18FreeAddr() (string, error) {
@@ -986,7 +1026,9 @@ func (w *c18World) play(sc *c18Scenario, seed int64) (res c18Result) {
 				if err == nil {
 					c.Close()
 				}
-				tcpProbes <- tcpProbe{k, at, err == nil}
+				// On a busy machine a port that was closed is soon bound by somebody else: only a listening
+				// socket of THIS process on the address counts.
+				tcpProbes <- tcpProbe{k, at, err == nil && c18HoldsListener(srvs[k].addr)}
 			}(k, at)
 		}
 	}
